@@ -21,13 +21,13 @@ def run_scenarios(chk, scenarios, tag):
     for sc, o in zip(scenarios, outs):
         chk.evaluations += 1
         chk.count(tag)
-        if o.startswith(("PANIC", "CRASH", "TIMEOUT")):
-            chk.monitor_fail("simulated network run panicked / crashed / hung", dict(case=sc[:1500], impl=o[:300]))
+        if o.startswith(("PANIC", "CRASH", "TIMEOUT", "HANG")):
+            chk.monitor_fail("simulated network run panicked / crashed / hung", dict(case=sc, impl=o[:300]))
             parsed.append(None)
             continue
         res, tr = parse(o)
         if tr.get("panics", "0") != "0":
-            chk.monitor_fail("a task panicked during the simulated network run (panics=%s)" % tr.get("panics"), dict(case=sc[:1500], impl=o[:600]))
+            chk.monitor_fail("a task panicked during the simulated network run (panics=%s)" % tr.get("panics"), dict(case=sc, impl=o[:600]))
         parsed.append(res)
     return outs, parsed
 
@@ -189,13 +189,13 @@ def c13(chk):
             # model-independent monitors
             for p, port in ds:
                 if p == 0 or aff.get(p) != "high" or naddr.get(p, 0) == 0:
-                    chk.monitor_fail("background dial to an ineligible peer (self / not High / no address): peer %d at tick %d" % (p, i), dict(case=sc[:1500], impl=str(per_tick)[:600]))
+                    chk.monitor_fail("background dial to an ineligible peer (self / not High / no address): peer %d at tick %d" % (p, i), dict(case=sc, impl=str(per_tick)[:600]))
                     ok_case = False
             if len(ds) > meta["maxout"]:
-                chk.monitor_fail("more background dials started (%d) than max outstanding (%d) at tick %d" % (len(ds), meta["maxout"], i), dict(case=sc[:1500]))
+                chk.monitor_fail("more background dials started (%d) than max outstanding (%d) at tick %d" % (len(ds), meta["maxout"], i), dict(case=sc))
                 ok_case = False
             if len(set(p for p, _ in ds)) != len(ds):
-                chk.monitor_fail("a peer was dialed twice in one check", dict(case=sc[:1500], impl=str(ds)))
+                chk.monitor_fail("a peer was dialed twice in one check", dict(case=sc, impl=str(ds)))
                 ok_case = False
             if i > 0:
                 listed = peers_tick[i - 1].strip("[]").split(",")
@@ -233,13 +233,13 @@ def c13(chk):
                 got = norm(port) or next((str(j if j == p else 200 + j) for prt, j in ports.items() if int(prt) == int(port)), "?")
                 if want is not None and got != want and not meta["cap"]:
                     chk.monitor_fail("peer %d: attempt after %d consecutive failure(s) used address %s, rotation requires %s (addresses %s)" % (p, k, got, want, addrs[p]),
-                                     dict(case=sc[:2500], tick=i, dials=str(per_tick)[:600]))
+                                     dict(case=sc, tick=i, dials=str(per_tick)[:600]))
                     ok_case = False
                 if p in last_dial and k > 0:
                     earliest = last_dial[p] * P + min(maxb, k * stepb)
                     if i * P < earliest:
                         chk.monitor_fail("peer %d: attempt at t=%d ms although its %d-th consecutive failure (attempt at %d ms) requires waiting at least min(%d, %d*%d) ms" % (p, i * P, k, last_dial[p] * P, maxb, k, stepb),
-                                         dict(case=sc[:2500], tick=i, dials=str(per_tick)[:600]))
+                                         dict(case=sc, tick=i, dials=str(per_tick)[:600]))
                         ok_case = False
                 last_dial[p] = i
                 overdue.pop(p, None)
@@ -255,7 +255,7 @@ def c13(chk):
                 for p, due in list(overdue.items()):
                     if i * P > due and aff.get(p) == "high":
                         chk.monitor_fail("peer %d: no attempt by t=%d ms although its %d consecutive failure(s) (last attempt at %d ms) allow one from %d ms on" % (p, i * P, fails[p], last_dial[p] * P, due - P),
-                                         dict(case=sc[:2500], tick=i, dials=str(per_tick)[:600]))
+                                         dict(case=sc, tick=i, dials=str(per_tick)[:600]))
                         ok_case = False
                         overdue.pop(p)
         if not ok_case:
@@ -279,10 +279,10 @@ def c13(chk):
             if meta["cap"]:
                 elig = set(x for x in f[2][1:].split(",") if x)
                 if not set(str(p) for p, _ in ds) <= elig or len(ds) != min(len(elig), meta["maxout"]):
-                    chk.disagree(mc[:800], "tick %d dials %s" % (i, sorted(ids)), "eligible %s cap %d" % (sorted(elig), meta["maxout"]), "simnet/dialer-cap")
+                    chk.disagree(mc, "tick %d dials %s" % (i, sorted(ids)), "eligible %s cap %d" % (sorted(elig), meta["maxout"]), "simnet/dialer-cap")
                 break   # which peers were taken is unspecified (hash order): later ticks diverge
             if ids != mds:
-                chk.disagree(mc[:800], "tick %d: %s (all: %s)" % (i, sorted(ids), per_tick), "tick %d: %s (all: %s)" % (i, sorted(mds), mo), "simnet/dialer")
+                chk.disagree(mc, "tick %d: %s (all: %s)" % (i, sorted(ids), per_tick), "tick %d: %s (all: %s)" % (i, sorted(mds), mo), "simnet/dialer")
                 break
     if outs:
         chk.sample(dict(case=scen[0][:400], impl=outs[0][:400], model=mouts[0][:300]))
@@ -354,11 +354,15 @@ def gen_netscript(rng, nn, length, w):
     return nodes, ops
 
 
-def net_scenario(rng, nodes, ops):
+def net_scenario(rng, nodes, ops, default_idle=False):
+    """default_idle: a QuicConfig is supplied but its idle timeout is left unset on every node, so the
+    transport's own default (30 s) is the idle timeout in force; quiet periods are stretched to match."""
     nn = len(nodes)
+    timing = "keepalive=5000" if default_idle else "idle=3000 keepalive=1000"
+    quiet = 36000 if default_idle else 4500
     def nodecmd(i, restart=False):
         name, alt, limit = nodes[i]
-        c = "node %d key=%d name=n%d idle=3000 keepalive=1000 ctimeout=1000" % (i, 10 + i, name)
+        c = "node %d key=%d name=n%d %s ctimeout=1000" % (i, 10 + i, name, timing)
         if alt is not None:
             c += " alt=n%d" % alt
         if limit is not None:
@@ -391,7 +395,7 @@ def net_scenario(rng, nodes, ops):
         elif k == "H":
             cmds.append("heal %d %d" % (op[1], op[2]))
         elif k == "Q":
-            cmds.append("sleep 4500")
+            cmds.append("sleep %d" % quiet)
         ppos = len(cmds)
         cmds += ["peers %d" % i for i in range(1, nn + 1)]
         rpcs = []
@@ -424,7 +428,13 @@ def run_netscripts(chk, n, nn_choices, length, weights, tag, extra_monitor=None)
         rng = chk.rng
         nn = rng.choice(nn_choices)
         nodes, ops = gen_netscript(rng, nn, length(rng), weights)
-        sc, marks, epos = net_scenario(rng, nodes, ops)
+        default_idle = rng.random() < weights.get("default_idle", 0.0)
+        if default_idle or (weights.get("default_idle") and rng.random() < 0.3):
+            # a silent loss: an established connection is cut for a whole quiet period, then the cut is healed
+            a = rng.randrange(1, nn + 1)
+            b = rng.choice([x for x in range(1, nn + 1) if x != a])
+            ops = ops + [("D", a, b), ("P", a, b), ("Q",), ("H", a, b), ("Q",)]
+        sc, marks, epos = net_scenario(rng, nodes, ops, default_idle)
         scen.append(sc)
         models.append(model_case(nodes, ops))
         metas.append((nodes, ops, marks, epos))
@@ -453,22 +463,22 @@ def run_netscripts(chk, n, nn_choices, length, weights, tag, extra_monitor=None)
                 # C03 monitors, model independent
                 if got.startswith("ok"):
                     if got != "ok%d" % op[2]:
-                        chk.monitor_fail("a dial to the address of node %d returned identity %s" % (op[2], got), dict(case=sc[:2000], op=str(op)))
+                        chk.monitor_fail("a dial to the address of node %d returned identity %s" % (op[2], got), dict(case=sc, op=str(op)))
                         ok = False
                     if len(op) > 3 and op[3] != op[2]:
-                        chk.monitor_fail("a dial pinned to identity %d succeeded against node %d" % (op[3], op[2]), dict(case=sc[:2000], op=str(op)))
+                        chk.monitor_fail("a dial pinned to identity %d succeeded against node %d" % (op[3], op[2]), dict(case=sc, op=str(op)))
                         ok = False
                     if "listed=1" not in r:
-                        chk.monitor_fail("connect returned %s but that peer is not in the caller's connected set" % got, dict(case=sc[:2000], op=str(op), impl=r))
+                        chk.monitor_fail("connect returned %s but that peer is not in the caller's connected set" % got, dict(case=sc, op=str(op), impl=r))
                         ok = False
                 if got != mdial:
-                    chk.disagree(mc[:1500], "op %d %s -> %s" % (oi, op, got), "-> %s" % mdial, "simnet/netmodel-dial")
+                    chk.disagree(mc, "op %d %s -> %s" % (oi, op, got), "-> %s" % mdial, "simnet/netmodel-dial")
                     ok = False
                     break
             if op[0] == "Q":
                 for i in range(1, nn + 1):
                     if listings[i] != mlists[str(i)]:
-                        chk.disagree(mc[:1500], "after op %d %s node %d lists %s" % (oi, op, i, listings[i]), "lists %s" % mlists[str(i)], "simnet/netmodel-listing")
+                        chk.disagree(mc, "after op %d %s node %d lists %s" % (oi, op, i, listings[i]), "lists %s" % mlists[str(i)], "simnet/netmodel-listing")
                         ok = False
                 # C09 monitors: mutual listing and reachability
                 for a in range(1, nn + 1):
@@ -478,23 +488,23 @@ def run_netscripts(chk, n, nn_choices, length, weights, tag, extra_monitor=None)
                             continue
                         lb = listings[b].strip("[]").split(",")
                         if (str(b) in la) != (str(a) in lb):
-                            chk.monitor_fail("after a quiet period node %d lists %d but not vice versa (%s / %s)" % (a, b, listings[a], listings[b]), dict(case=sc[:2000], op_index=oi))
+                            chk.monitor_fail("after a quiet period node %d lists %d but not vice versa (%s / %s)" % (a, b, listings[a], listings[b]), dict(case=sc, op_index=oi))
                             ok = False
                 for a, b, pos in rpcs:
                     r = res[pos - 1]
                     listed = str(b) in listings[a].strip("[]").split(",")
                     if listed and not r.startswith("ok st=200"):
-                        chk.monitor_fail("node %d lists %d after a quiet period but an RPC to it fails: %s" % (a, b, r[:80]), dict(case=sc[:2000], op_index=oi))
+                        chk.monitor_fail("node %d lists %d after a quiet period but an RPC to it fails: %s" % (a, b, r[:80]), dict(case=sc, op_index=oi))
                         ok = False
                     if not listed and r.startswith("ok"):
-                        chk.monitor_fail("RPC to an unlisted peer succeeded (%d -> %d)" % (a, b), dict(case=sc[:2000], op_index=oi))
+                        chk.monitor_fail("RPC to an unlisted peer succeeded (%d -> %d)" % (a, b), dict(case=sc, op_index=oi))
                         ok = False
                 if not ok:
                     break
             if op[0] == "X":
                 # C09: explicit disconnect removes the peer locally at once
                 if str(op[2]) in listings[op[1]].strip("[]").split(","):
-                    chk.monitor_fail("disconnect(%d) at node %d left the peer listed" % (op[2], op[1]), dict(case=sc[:2000], op_index=oi))
+                    chk.monitor_fail("disconnect(%d) at node %d left the peer listed" % (op[2], op[1]), dict(case=sc, op_index=oi))
                     ok = False
         # events: alternation per peer
         for i in range(1, nn + 1):
@@ -505,7 +515,7 @@ def run_netscripts(chk, n, nn_choices, length, weights, tag, extra_monitor=None)
                     continue
                 p = e[1:].split(":")[0]
                 if (e[0] == "+") == listed.get(p, False):
-                    chk.monitor_fail("peer events of node %d do not alternate for peer %s: %s" % (i, p, evs), dict(case=sc[:2000]))
+                    chk.monitor_fail("peer events of node %d do not alternate for peer %s: %s" % (i, p, evs), dict(case=sc))
                     ok = False
                     break
                 listed[p] = e[0] == "+"
@@ -531,6 +541,10 @@ ADV_VARIANTS = [
     ("no-client-cert", "k=7 names=nN nocert=1", "server-only"),
     ("client-only-eku", "k=7 names=nN eku=client", "client-only"),
     ("server-only-eku", "k=7 names=nN eku=server", "server-only"),
+    # chains (Tls.accept_chain): the victim's certificate appended behind the adversary's own / put in front of it
+    ("chain-own-then-V", "k=7 names=nN chain=V", "self"),
+    ("chain-V-then-own", "k=7 names=nN chain=V chainfirst=1", "none"),
+    ("chain-own-then-V-then-other", "k=7 names=nN chain=V,9", "self"),
 ]
 
 
@@ -538,12 +552,13 @@ def adversary_scenarios(chk, n, tag):
     """Honest nodes 1 (victim of impersonation: identity key V) and 2 (observer), an adversary 8
     that dials node 2 and is dialed by node 2 (plain and pinned to node 1's identity)."""
     scen, metas = [], []
+    n = len(ADV_VARIANTS) * (1 if chk.tier == "quick" else 8)
     for i in range(n):
         rng = chk.rng
         label, spec, mode = ADV_VARIANTS[i % len(ADV_VARIANTS)]
         V = rng.randrange(100, 10**6)
         name = rng.choice([10, 20])
-        spec = spec.replace("k=V", "k=%d" % V).replace("nN", "n%d" % name).replace("nX", "n%d" % (30 if name != 30 else 10))
+        spec = spec.replace("k=V", "k=%d" % V).replace("chain=V", "chain=%d" % V).replace("nN", "n%d" % name).replace("nX", "n%d" % (30 if name != 30 else 10))
         cmds = ["seed=%d delay=%d" % (rng.randrange(1 << 30), rng.choice([500, 2000])),
                 "node 1 key=%d name=n%d" % (V, name), "node 2 key=%d name=n%d" % (V + 1, name),
                 "adv 8 " + spec,
@@ -586,7 +601,7 @@ def adversary_scenarios(chk, n, tag):
         want_dial = mode in ("self", "client-only")
         want_conn = mode in ("self", "server-only")
         if dialed_ok != want_dial or conn_ok != want_conn:
-            chk.disagree(sc[:1500], "[%s] adversary-as-client admitted=%s, as-server accepted=%s" % (label, dialed_ok, conn_ok),
+            chk.disagree(sc, "[%s] adversary-as-client admitted=%s, as-server accepted=%s" % (label, dialed_ok, conn_ok),
                          "Tls.v: as-client %s, as-server %s" % (want_dial, want_conn), "simnet/adversary")
         # the genuine node 1 still connects and is attributed correctly on both sides
         real = r["rpc 2 1 id=real size=10"][0]
@@ -716,13 +731,13 @@ def c02(chk):
                 f = fields(out)
                 want_body = pat_digest(rs, len(rid)) if rs is not None else want_sent
                 if f["st"] != "200" or f["id"] != rid or f["srv"] != str(b) or f["from"] != str(b) or f["seen"] != str(a) or f["body"] != want_body or f["sent"] != want_sent:
-                    chk.monitor_fail("RPC %s (%d->%d) returned a response that is not its own: %s (expected body %s)" % (rid, a, b, out[:200], want_body), dict(case=sc[:3000]))
+                    chk.monitor_fail("RPC %s (%d->%d) returned a response that is not its own: %s (expected body %s)" % (rid, a, b, out[:200], want_body), dict(case=sc))
             elif out == "HANG":
-                chk.monitor_fail("RPC %s neither returned nor failed" % rid, dict(case=sc[:3000]))
+                chk.monitor_fail("RPC %s neither returned nor failed" % rid, dict(case=sc))
             else:
                 # an error is acceptable only under datagram loss
                 if faults not in ("loss", "all"):
-                    chk.monitor_fail("RPC %s failed on a loss-free link: %s" % (rid, out[:100]), dict(case=sc[:3000]))
+                    chk.monitor_fail("RPC %s failed on a loss-free link: %s" % (rid, out[:100]), dict(case=sc))
         for node in (0, 1):
             seen = {}
             for e in r["log %d" % node].strip("[]").split("|"):
@@ -732,14 +747,14 @@ def c02(chk):
                 rid = f["id"]
                 seen[rid] = seen.get(rid, 0) + 1
                 if rid not in sent_to[node]:
-                    chk.monitor_fail("node %d handled a request (%s) nobody sent to it" % (node, rid), dict(case=sc[:3000]))
+                    chk.monitor_fail("node %d handled a request (%s) nobody sent to it" % (node, rid), dict(case=sc))
                     continue
                 a, want = sent_to[node][rid]
                 if f["from"] != str(a) or f["body"] != want:
-                    chk.monitor_fail("node %d handled request %s with wrong sender/body: %s" % (node, rid, e[:150]), dict(case=sc[:3000]))
+                    chk.monitor_fail("node %d handled request %s with wrong sender/body: %s" % (node, rid, e[:150]), dict(case=sc))
             dup = [k for k, v in seen.items() if v > 1]
             if dup:
-                chk.monitor_fail("request(s) %s delivered to a handler more than once" % dup[:3], dict(case=sc[:3000]))
+                chk.monitor_fail("request(s) %s delivered to a handler more than once" % dup[:3], dict(case=sc))
     if outs:
         chk.sample(dict(case=scen[0][:400], impl=outs[0][:400]))
 
@@ -787,16 +802,16 @@ def c12(chk):
         st = fields(r["stat 1"])
         running = int(st["started"]) - int(st["completed"]) - int(st["dropped"])
         if running != 0:
-            chk.monitor_fail("%d handler(s) of abandoned RPCs still running after the caller dropped them (started=%s completed=%s dropped=%s)" % (running, st["started"], st["completed"], st["dropped"]), dict(case=sc[:3000], impl=o[-600:]))
+            chk.monitor_fail("%d handler(s) of abandoned RPCs still running after the caller dropped them (started=%s completed=%s dropped=%s)" % (running, st["started"], st["completed"], st["dropped"]), dict(case=sc, impl=o[-600:]))
         for k in range(live):
             x = r["join live%d 600000" % k]
             if not x.startswith("ok st=200") or "id=L%d" % k not in x:
-                chk.monitor_fail("a sibling RPC was disturbed by abandoned calls: " + x[:120], dict(case=sc[:3000]))
+                chk.monitor_fail("a sibling RPC was disturbed by abandoned calls: " + x[:120], dict(case=sc))
         for c in ("rpc 0 1 id=final size=10", "rpc 1 0 id=back size=10"):
             if not r[c].startswith("ok st=200"):
-                chk.monitor_fail("after %d abandoned calls a fresh RPC fails (stream capacity exhausted?): %s" % (count, r[c][:100]), dict(case=sc[:3000]))
+                chk.monitor_fail("after %d abandoned calls a fresh RPC fails (stream capacity exhausted?): %s" % (count, r[c][:100]), dict(case=sc))
         if r["peers 0"] != "[1]":
-            chk.monitor_fail("abandoned calls tore down the connection", dict(case=sc[:3000]))
+            chk.monitor_fail("abandoned calls tore down the connection", dict(case=sc))
     if outs:
         chk.sample(dict(case=scen[0][:400], impl=outs[0][-400:]))
 
@@ -843,7 +858,7 @@ def c06(chk):
                 act = rng.choice(["finish", "reset", "hold", "abandon", "stop"])
                 ops.append("advop 8 1 bi:%s:%s" % (data.hex() or "-", act))
             elif kind < 0.85:
-                ops.append("advop 8 1 uni:%s" % (data.hex() or "-"))
+                ops.append("advop 8 1 uni:%s:%s" % (data.hex() or "-", rng.choice(["finish", "hold", "hold", "reset"])))
             elif kind < 0.95:
                 ops.append("advop 8 1 datagram:%s" % (data[:1000].hex() or "-"))
             else:
@@ -868,18 +883,18 @@ def c06(chk):
                 if c.endswith("close"):
                     closed_conn = True
                 if c == "advop 8 1 bi:%s:finish" % valid.hex() and not closed_conn and not x.startswith("answered"):
-                    chk.monitor_fail("a well-formed request of the hostile peer on another stream was not served: " + x, dict(case=sc[:3000]))
+                    chk.monitor_fail("a well-formed request of the hostile peer on another stream was not served: " + x, dict(case=sc))
             if c.startswith("rpc 2 1") or c.startswith("rpc 1 2") or c.startswith("join slow"):
                 if not x.startswith("ok st=200"):
-                    chk.monitor_fail("an honest RPC failed while a hostile peer was misbehaving: %s -> %s" % (c, x[:100]), dict(case=sc[:3000]))
+                    chk.monitor_fail("an honest RPC failed while a hostile peer was misbehaving: %s -> %s" % (c, x[:100]), dict(case=sc))
                 else:
                     f = fields(x)
                     if f["body"] != f["sent"]:
-                        chk.monitor_fail("an honest RPC returned a wrong body while a hostile peer was misbehaving", dict(case=sc[:3000]))
+                        chk.monitor_fail("an honest RPC returned a wrong body while a hostile peer was misbehaving", dict(case=sc))
             if c == "closed 1" and not x.startswith("closed=0"):
-                chk.monitor_fail("the network shut down under hostile input: " + x, dict(case=sc[:3000]))
+                chk.monitor_fail("the network shut down under hostile input: " + x, dict(case=sc))
             if c == "peers 1" and "2" not in x.strip("[]").split(","):
-                chk.monitor_fail("the honest peer was disconnected under hostile input: " + x, dict(case=sc[:3000]))
+                chk.monitor_fail("the honest peer was disconnected under hostile input: " + x, dict(case=sc))
     if outs:
         chk.sample(dict(case=scen[0][:500], impl=outs[0][-400:]))
 
@@ -1114,42 +1129,42 @@ def c08(chk):
         if mode == "explicit":
             x = r["shutdown 0"][0]
             if not x.startswith("ok"):
-                chk.monitor_fail("explicit shutdown returned an error: " + x, dict(case=sc[:3000]))
+                chk.monitor_fail("explicit shutdown returned an error: " + x, dict(case=sc))
             elif int(fields(x)["t"]) > bound_us:
-                chk.monitor_fail("shutdown took %s us, idle-wait bound is %d ms" % (fields(x)["t"], idle_wait), dict(case=sc[:3000]))
+                chk.monitor_fail("shutdown took %s us, idle-wait bound is %d ms" % (fields(x)["t"], idle_wait), dict(case=sc))
         if mode == "double":
             a, b = r["join s1 120000"][0], r["join s2 120000"][0]
             if "HANG" in (a, b, r["join c1 120000"][0]):
-                chk.monitor_fail("a shutdown / connect call issued concurrently with shutdown hangs: %s %s %s" % (a, b, r["join c1 120000"][0]), dict(case=sc[:3000]))
+                chk.monitor_fail("a shutdown / connect call issued concurrently with shutdown hangs: %s %s %s" % (a, b, r["join c1 120000"][0]), dict(case=sc))
             if not (a.startswith("ok") or b.startswith("ok")):
-                chk.monitor_fail("neither of two concurrent shutdown calls succeeded: %s / %s" % (a, b), dict(case=sc[:3000]))
+                chk.monitor_fail("neither of two concurrent shutdown calls succeeded: %s / %s" % (a, b), dict(case=sc))
         for jid, cmd in jobs:
             x = r["join %s 120000" % jid][0]
             if x == "HANG" or x.startswith("task-failed"):
-                chk.monitor_fail("a call pending at shutdown never returned (%s): %s" % (cmd, x), dict(case=sc[:3000]))
+                chk.monitor_fail("a call pending at shutdown never returned (%s): %s" % (cmd, x), dict(case=sc))
         cl = r["closed 0"][0]
         if mode != "drop" and cl != "closed=1 upgrade=0":
-            chk.monitor_fail("after shutdown: %s (expected closed, weak reference not upgradable)" % cl, dict(case=sc[:3000]))
+            chk.monitor_fail("after shutdown: %s (expected closed, weak reference not upgradable)" % cl, dict(case=sc))
         if mode == "drop" and "upgrade=0" not in cl:
-            chk.monitor_fail("after dropping the last handle the weak reference still upgrades: " + cl, dict(case=sc[:3000]))
+            chk.monitor_fail("after dropping the last handle the weak reference still upgrades: " + cl, dict(case=sc))
         st = fields(r["stat 0"][0])
         if st["clones"] != "0":
-            chk.monitor_fail("%s clone(s) of the user's service are still alive after shutdown" % st["clones"], dict(case=sc[:3000], impl=r["stat 0"][0]))
+            chk.monitor_fail("%s clone(s) of the user's service are still alive after shutdown" % st["clones"], dict(case=sc, impl=r["stat 0"][0]))
         ev = r["events 0"][0].strip("[]").split(",")
         if ev[-1] != "END":
-            chk.monitor_fail("subscriber did not reach end-of-stream after shutdown: %s" % ev[-5:], dict(case=sc[:3000]))
+            chk.monitor_fail("subscriber did not reach end-of-stream after shutdown: %s" % ev[-5:], dict(case=sc))
         lost = set(e[1:].split(":")[0] for e in ev if e.startswith("-"))
         if not {"1", "2"} <= lost and mode != "x":
-            chk.monitor_fail("subscriber did not receive the pending LostPeer events before end-of-stream: %s" % ev, dict(case=sc[:3000]))
+            chk.monitor_fail("subscriber did not receive the pending LostPeer events before end-of-stream: %s" % ev, dict(case=sc))
         prompt = not ("0" in r["peers 1"][0].strip("[]").split(",") or "0" in r["peers 2"][0].strip("[]").split(","))
         chk.count("remote-noticed-promptly" if prompt else "remote-noticed-by-idle-timeout")
         if "0" in r["peers 1"][1].strip("[]").split(",") or "0" in r["peers 2"][1].strip("[]").split(","):
-            chk.monitor_fail("remote peers did not observe the disconnect within the idle timeout: %s %s" % (r["peers 1"][1], r["peers 2"][1]), dict(case=sc[:3000]))
+            chk.monitor_fail("remote peers did not observe the disconnect within the idle timeout: %s %s" % (r["peers 1"][1], r["peers 2"][1]), dict(case=sc))
         if mode != "drop":
             late = [r["connect 0 1"][-1], r["rpc 0 1 id=late size=1"][0], r["shutdown 0"][-1], r["disconnect 0 1"][0]]
             if any(x.startswith("ok") for x in late) or "HANG" in late:
-                chk.monitor_fail("an API call issued after shutdown did not return an error: %s" % late, dict(case=sc[:3000]))
+                chk.monitor_fail("an API call issued after shutdown did not return an error: %s" % late, dict(case=sc))
             if r["peers 0"][0] != "[]":
-                chk.monitor_fail("peers() after shutdown: " + r["peers 0"][0], dict(case=sc[:3000]))
+                chk.monitor_fail("peers() after shutdown: " + r["peers 0"][0], dict(case=sc))
     if outs:
         chk.sample(dict(case=scen[0][:500], impl=outs[0][-500:]))
